@@ -366,6 +366,12 @@ def gen(rng, quick):
               ("adv", c0.timeout + 1, "prelude"), ("run", 1, "prelude")]
     for name, pre in (("abort", pre_abort), ("timeout", pre_tmo), ("download", pre_dl)):
         out.append(("ul.after." + name, "ul", True, c0, fa, pre + upload_script(c0, fa), 1))
+    # (1a') the monotonic clock may stand anywhere: just after its origin (a device that has just booted: below the supervision
+    #      timeout), around 2^32 ms (49.7 days up), far beyond; the standard transfers work all the same
+    fc = File([700, 1, 480], seed=78)
+    for j, t0 in enumerate([0, 1, 500, 2500, 2999, 3000, 2 ** 32 - 200, 2 ** 32 - 1, 2 ** 32 + 60000, 2 ** 40 + 7]):
+        out.append(("dl.clock.%d" % j, "dl", True, c0, fc, [("clock", t0, "prelude")] + download_script(c0, fc), 1))
+        out.append(("ul.clock.%d" % j, "ul", True, c0, fc, [("clock", t0, "prelude")] + upload_script(c0, fc), 1))
     # (1b) the same procedure in (virtual) real time: a slave task every 100 ms, a master that takes up to just under the
     #      supervision timeout to answer -- sections that take longer than the timeout to transmit must still arrive
     for i, (sh, pace, think) in enumerate([([8192, 7081, 100], 100, 0), ([3, 300, 5], 0, c0.timeout - 1), ([7316, 7317], 100, 2000), ([500, 20000], 150, 10)] +
